@@ -17,7 +17,7 @@ from ..models.green import GreenModel
 
 RHS_KINDS = [("smooth", 4), ("impulse", 4), ("zero", 2), ("big", 2), ("tiny", 1), ("checker", 1)]
 VIEW_KINDS = [("plain", 5), ("component", 2), ("padded", 2), ("inplace", 1), ("transposed", 1), ("interleaved", 1)]
-X_RANGES = [1.0, 0.37, 6.283185307179586, 100.0, 1.0e-3, 2.5]
+X_RANGES = [1.0, 0.37, 6.283185307179586, 100.0, 1.0e-3, 2.5, 2.0e-6, 3.0e5, 2.0]
 
 
 def _real_t(precision):
@@ -47,7 +47,7 @@ class C03(Check):
         ],
         "stub": ["FFTW planning rigor (MEASURE -> ESTIMATE)"],
     }
-    required_probes = ["zero_after_big", "two_solvers_interleaved", "vector_solve", "impulse_at_corner", "inplace", "non_square", "fft_unfriendly_size", "view_transposed", "view_interleaved", "large_grid_sparse_rhs"]
+    required_probes = ["zero_after_big", "two_solvers_interleaved", "vector_solve", "impulse_at_corner", "inplace", "non_square", "fft_unfriendly_size", "view_transposed", "view_interleaved", "large_grid_sparse_rhs", "two_solvers_differing_in_precision_only"]
     tiers = {
         "quick": {"runs": 480, "batch": 6, "timeout": 240},
         "thorough": {"runs": 20000, "batch": 10, "timeout": 600},
@@ -75,6 +75,8 @@ class C03(Check):
             # production-sized grids (size-dependent paths): checked with sparse right-hand sides only
             if dim == 2:
                 return [rng.choice([48, 64, 81, 96, 100, 128]), rng.choice([48, 64, 80, 96, 128, 130])]
+            if rng.random() < 0.25:
+                return list(rng.choice([(36, 88, 88), (70, 64, 64), (40, 96, 80)]))  # more than 64^3 cells
             return [rng.choice([16, 24, 27, 32]), rng.choice([16, 20, 32, 40]), rng.choice([24, 32, 33, 48])]
         if rng.random() < 0.3:
             # sizes whose doubled length is not 2/3/5/7-smooth (FFT "fast length" paths), one axis at a
@@ -114,6 +116,16 @@ class C03(Check):
             # two solver objects alive together that differ only in the domain length
             solvers[1]["shape"] = list(solvers[0]["shape"])
             solvers[1]["x_range"] = rng.choice([x for x in X_RANGES if x != solvers[0]["x_range"]])
+        elif n_solvers == 2 and rng.random() < 0.4:
+            # ... or only in precision (same grid, same - often dyadic - spacing), single precision built first or second
+            solvers[1]["shape"] = list(solvers[0]["shape"])
+            if rng.random() < 0.6:
+                solvers[0]["shape"][-1] = solvers[1]["shape"][-1] = rng.choice([4, 8, 16])
+                solvers[0]["x_range"] = rng.choice([1.0, 2.0])
+            solvers[1]["x_range"] = solvers[0]["x_range"]
+            first = rng.choice(["single", "double"])
+            solvers[0]["precision"] = first
+            solvers[1]["precision"] = "double" if first == "single" else "single"
         ops = []
         for _ in range(rng.randint(3, 12) if tier != "thorough" or rng.random() < 0.7 else rng.randint(20, 48)):
             s = rng.randrange(n_solvers)
@@ -189,10 +201,10 @@ class C03(Check):
         import sopht.numeric.eulerian_grid_ops as spne
 
         dim = program["dim"]
-        real_t = _real_t(program["precision"])
-        eps = float(np.finfo(real_t).eps)
-        solvers, models = [], []
+        solvers, models, real_ts = [], [], []
         for s in program["solvers"]:
+            real_t = _real_t(s.get("precision", program["precision"]))
+            real_ts.append(real_t)
             shape = tuple(s["shape"])
             if dim == 2:
                 solvers.append(spne.UnboundedPoissonSolverPYFFTW2D(grid_size_y=shape[0], grid_size_x=shape[1], x_range=s["x_range"], real_t=real_t))
@@ -211,6 +223,8 @@ class C03(Check):
                 res.probe("odd_size")
             if any(n in (11, 13, 17, 19, 23, 26, 29, 31, 34, 37, 41, 43, 47) for n in shape):
                 res.probe("fft_unfriendly_size")
+        if len(program["solvers"]) == 2 and program["solvers"][0].get("precision") and program["solvers"][0]["shape"] == program["solvers"][1]["shape"]:
+            res.probe("two_solvers_differing_in_precision_only")
         last_kind = {}
         last_solver = None
         n_solves = {}
@@ -218,6 +232,8 @@ class C03(Check):
         for i, op in enumerate(program["ops"]):
             s = op["solver"] % len(solvers)
             solver, model = solvers[s], models[s]
+            real_t = real_ts[s]
+            eps = float(np.finfo(real_t).eps)
             shape = model.shape
             if op["kind"] == "aborted_solve":
                 f = self._make_rhs(op["rhs"][0], shape, real_t)
